@@ -703,6 +703,129 @@ fn lua_copy(rep: &mut Report, repo: &str) {
     rep.add("lua_copy.descriptors_compared", compared);
 }
 
+/// A database "regenerated from a newer dump": for every migrating property of the bundled database, the descriptor of
+/// the migration TARGET (and its default) is moved from the class that declares it to that class's superclass - what
+/// the generator produces when Roblox hoists a property into a base class while patches/ stay as they are. The result is
+/// coherent in the sense of C16 (targets resolve through the superclass chain), so with it on both sides a legacy value
+/// must come out of each codec under the new name with the value it has with the bundled database.
+fn hoisted_targets(rep: &mut Report) {
+    use rbx_reflection::{PropertyKind as PK, PropertySerialization as PS};
+    let db = rbx_reflection_database::get();
+    let mut migs: Vec<(String, String, String)> = vec![];
+    for cname in dbwalk::sorted_class_names(db) {
+        let c = &db.classes[cname];
+        let mut names: Vec<&str> = c.properties.keys().map(|k| k.as_ref()).collect();
+        names.sort();
+        for pn in names {
+            if let PK::Canonical { serialization: PS::Migrate(m) } = &c.properties[pn].kind {
+                migs.push((cname.to_owned(), pn.to_owned(), m.new_property_name.to_string()));
+            }
+        }
+    }
+    for (cname, legacy, target) in migs {
+        let class = &db.classes[cname.as_str()];
+        let sup = match &class.superclass {
+            Some(s) => s.to_string(),
+            None => continue,
+        };
+        if !class.properties.contains_key(target.as_str()) || db.classes[sup.as_str()].properties.contains_key(target.as_str()) {
+            continue;
+        }
+        // the target travels with the descriptors that belong to it (its aliases, among them the name it serializes
+        // as), or the copy would no longer be coherent
+        let mut moved: Vec<String> = vec![target.clone()];
+        for (k, d) in &class.properties {
+            if let PK::Alias { alias_for } = &d.kind {
+                if alias_for.as_ref() == target.as_str() {
+                    moved.push(k.to_string());
+                }
+            }
+        }
+        if moved.iter().any(|k| db.classes[sup.as_str()].properties.contains_key(k.as_str())) {
+            continue;
+        }
+        let mut db2 = db.clone();
+        for k in &moved {
+            let (tk, td) = db2.classes.get_mut(cname.as_str()).unwrap().properties.remove_entry(k.as_str()).unwrap();
+            let dflt = db2.classes.get_mut(cname.as_str()).unwrap().default_properties.remove_entry(k.as_str());
+            let s2 = db2.classes.get_mut(sup.as_str()).unwrap();
+            s2.properties.insert(tk, td);
+            if let Some((k, v)) = dflt {
+                s2.default_properties.entry(k).or_insert(v);
+            }
+        }
+        // an instantiable class at or below the declaring class
+        let mut cands = vec![cname.clone()];
+        cands.extend(dbwalk::sorted_class_names(db).into_iter().filter(|c| dbwalk::class_chain(db, c).iter().any(|k| k.name == cname)).map(|s| s.to_owned()));
+        let inst_class = cands.into_iter().find(|c| !db.classes[c.as_str()].tags.contains(&rbx_reflection::ClassTag::NotCreatable)).unwrap_or(cname.clone());
+        let lty = match dbwalk::vtype(&class.properties[legacy.as_str()]) {
+            Some(t) => t,
+            None => continue,
+        };
+        let values: Vec<Variant> = match lty {
+            VariantType::BrickColor => vec![Variant::BrickColor(BrickColor::ReallyBlue), Variant::BrickColor(BrickColor::from_number(21).unwrap())],
+            VariantType::Bool => vec![Variant::Bool(true), Variant::Bool(false)],
+            VariantType::Enum => vec![Variant::Enum(Enum::from_u32(4)), Variant::Enum(Enum::from_u32(1))],
+            VariantType::ContentId => vec![Variant::ContentId("rbxassetid://5".into()), Variant::ContentId("".into())],
+            VariantType::Content => vec![Variant::Content(Content::from_uri("rbxassetid://5"))],
+            _ => continue,
+        };
+        for lv in values {
+            let dom = WeakDom::new(InstanceBuilder::new("DataModel").with_child(InstanceBuilder::new(inst_class.as_str()).with_name("x").with_property(legacy.as_str(), lv.clone())));
+            let roots = dom.root().children().to_vec();
+            let replay = json!({"cmd": "c16", "part": "hoisted-targets", "class": inst_class, "legacy": legacy});
+            let no = |_: Ref| J::Null;
+            let pick = |d: &WeakDom| -> Option<J> {
+                let k = d.root().children().first().and_then(|r| d.get_by_ref(*r))?;
+                k.properties.get(&rbx_dom_weak::ustr(target.as_str())).map(|v| canon::value(v, &no))
+            };
+            for fmt in ["binary", "xml"] {
+                rep.evaluations += 1;
+                rep.count(&format!("hoisted_targets.{}", fmt));
+                let run = |dbx: &'static rbx_reflection::ReflectionDatabase<'static>| -> Result<Result<Option<J>, String>, crate::report::PanicInfo> {
+                    let dom = &dom;
+                    let roots = &roots;
+                    let pick = &pick;
+                    catch(move || {
+                        let mut v = vec![];
+                        if fmt == "binary" {
+                            rbx_binary::Serializer::new().reflection_database(dbx).serialize(&mut v, dom, roots).map_err(|e| format!("write: {}", e))?;
+                            let d = rbx_binary::Deserializer::new().reflection_database(dbx).deserialize(&v[..]).map_err(|e| format!("read: {}", e))?;
+                            Ok(pick(&d))
+                        } else {
+                            rbx_xml::to_writer(&mut v, dom, roots, rbx_xml::EncodeOptions::new().reflection_database(dbx)).map_err(|e| format!("write: {}", e))?;
+                            let d = rbx_xml::from_reader(&v[..], rbx_xml::DecodeOptions::new().reflection_database(dbx)).map_err(|e| format!("read: {}", e))?;
+                            Ok(pick(&d))
+                        }
+                    })
+                };
+                // the codecs want a 'static database: leak this handful of copies (a few MB per run)
+                let leaked: &'static rbx_reflection::ReflectionDatabase<'static> = Box::leak(Box::new(db2.clone()));
+                let base = run(db);
+                let got = run(leaked);
+                let show = |r: &Result<Result<Option<J>, String>, crate::report::PanicInfo>| match r {
+                    Ok(Ok(v)) => format!("{:?}", v.as_ref().map(|j| j.to_string())),
+                    Ok(Err(e)) => format!("error {}", e),
+                    Err(p) => format!("panic {}", p.msg),
+                };
+                let same = match (&base, &got) {
+                    (Ok(Ok(a)), Ok(Ok(b))) => a == b,
+                    (Ok(Err(_)), Ok(Err(_))) => true,
+                    _ => false,
+                };
+                if !same {
+                    rep.violation(
+                        &format!("C16:hoisted-target:{}:{}.{}", fmt, cname, legacy),
+                        &format!("{} {}.{} = {:?}: with the bundled database {} is {}, with the target declared by {} instead it is {}", fmt, inst_class, legacy, lv, target, show(&base), sup, show(&got)),
+                        replay.clone(),
+                        J::Null,
+                    );
+                }
+            }
+        }
+    }
+}
+
 pub fn main(a: &Args) {
     let shard = a.u64("shard", 0);
     let nshards = a.u64("nshards", 1);
@@ -713,6 +836,7 @@ pub fn main(a: &Args) {
         structural(&mut rep);
         lua_copy(&mut rep, &repo);
         custom_database(&mut rep);
+        hoisted_targets(&mut rep);
         reserialize(&mut rep);
     }
     default_instances(&mut rep, shard, nshards);
